@@ -76,9 +76,14 @@ PLUGIN_POST = [('num', 'self.client._num_buffer == len(self.client.buffer)'),
 
 
 def add_handler(reg):
+    if getattr(reg, '_handler_tables', False):
+        return          # idempotent: several property modules share these tables
+    reg._handler_tables = True
     externs.add_misc(reg)
     add_connections(reg)
-    reg.klass('Flags', py=None, fields=FLAGS)
+    fl = dict(FLAGS)
+    fl.update(reg.classes.get('Flags', {}).get('fields', {}))
+    reg.klass('Flags', py=None, fields=fl)
     # the protocol plugin is adversarial: it may queue output for the client and return/raise anything
     reg.klass('ProtoPlugin', py=None, fields={'client': ('obj', 'HttpClientConnection')})
     for m, params, res in (('write_to_descriptors', {'w': ('list', 'int')}, 'bool'),
